@@ -55,7 +55,7 @@ MANIFEST = {
 MODULES = ["PrimaiteModel.Props.C08", "PrimaiteModel.Props.C08Forward", "PrimaiteModel.Lemmas.ForwardInv",
            "PrimaiteModel.Props.C08Addressee", "PrimaiteModel.Props.C08Liveness", "PrimaiteModel.Props.C08FuelMono",
            "PrimaiteModel.Props.C08Termination", "PrimaiteModel.Props.C08RouteOps", "PrimaiteModel.Props.C08Cold",
-           "PrimaiteModel.Props.C08ColdRouter"]
+           "PrimaiteModel.Props.C08ColdRouter", "PrimaiteModel.Props.C08HostHop"]
 EXE = "drv_c08"
 
 
@@ -159,6 +159,7 @@ def _run_net(ctx: Ctx):
     if "bad-op" in out:
         raise RuntimeError(f"driver rejected a line: {[l for l, m in zip(lines_all, out) if m == 'bad-op'][:2]}")
     agree = 0
+    shrunk = 0
     for (name, case), impl, records, pos in zip(cases, impl_all, rec_all, pos_all):
         model = [rnet.canon_model_answer(out[p]) for p in pos]
         ctx.cov["traces_validated_against_impl"] += 1
@@ -174,7 +175,7 @@ def _run_net(ctx: Ctx):
                 if good == "1" and out[q] == "none":
                     ctx.oblige(f"fuel bound theorem instance on {name}", "correspondence", False,
                                f"{lines_all[q]} needs more than fuelBound although the configuration passes goodCfgB")
-        for key in ("via_host", "gw_is_host", "gw_off_subnet", "dmz_cross", "recursive_nh"):
+        for key in ("via_host", "gw_is_host", "gw_off_subnet", "dmz_cross", "recursive_nh", "two_gateway"):
             if notes.get(key):
                 ctx.count("net-misconfig:" + key)
         if notes.get("dual_homed") is not None:
@@ -230,7 +231,13 @@ def _run_net(ctx: Ctx):
 
         def fails(ops, case=case):
             return not _net_diff(dict(case, ops=ops))[0]
-        small = dict(case, ops=shrink_ops(case["ops"], fails, budget=60)) if i < len(case["ops"]) else case
+        # cheap first: everything after the first disagreeing op is irrelevant; then a bounded shrink for the first two
+        # disagreeing traces only (each evaluation = one implementation run + one driver process)
+        if i < len(case["ops"]):
+            case = dict(case, ops=case["ops"][:i + 1])
+        budget = (40, 15)[shrunk] if shrunk < 2 else 0
+        shrunk += 1
+        small = dict(case, ops=shrink_ops(case["ops"], fails, budget=budget)) if (i < len(case["ops"]) and budget) else case
         ok, impl2, model2, i2, _ = _net_diff(small)
         if ok:
             small, impl2, model2, i2 = case, impl, model, i
